@@ -208,3 +208,54 @@ func VfC08_ParseParams() {
 		vfAssert("C08.params.fixpoint", m2.String() == out)
 	}
 }
+
+// VfC08_ParseEH: values of token type take numbers like any other value: a
+// function whose catchswitch (a value-producing terminator), catchpad and
+// cleanuppad results and blocks are unnamed, each written with its explicit
+// LLVM number or implicitly (forked per value); accepted by llvm-as 14.
+//
+//vf:unwind 200
+func VfC08_ParseEH() {
+	ex := func(k int, explicit string) string {
+		if vfChoice("form"+string(rune('0'+k)), 2) == 0 {
+			return explicit
+		}
+		return ""
+	}
+	src := "declare i32 @pers(...)\ndeclare void @v()\n" +
+		"define void @f() personality i8* bitcast (i32 (...)* @pers to i8*) {\n" +
+		"\tinvoke void @v() to label %1 unwind label %2\n" +
+		ex(0, "1:\n") + "\tret void\n" +
+		ex(1, "2:\n") + "\t" + ex(2, "%3 = ") + "catchswitch within none [label %4] unwind label %7\n" +
+		ex(3, "4:\n") + "\t" + ex(4, "%5 = ") + "catchpad within %3 [i8* null, i32 64, i8* null]\n" +
+		"\tcatchret from %5 to label %6\n" +
+		ex(5, "6:\n") + "\tret void\n" +
+		ex(6, "7:\n") + "\t" + ex(7, "%8 = ") + "cleanuppad within none []\n" +
+		"\tcleanupret from %8 unwind to caller\n}\n"
+	m, err := ParseString("t.ll", src)
+	vfReach("C08.parse.eh")
+	vfObserveStr("src", src)
+	vfAssert("C08.parse.eh.accepts-llvm-numbering", err == nil)
+	if err != nil {
+		return
+	}
+	f := m.Funcs[2]
+	vfAssert("C08.parse.eh.blocks", len(f.Blocks) == 6)
+	if len(f.Blocks) != 6 {
+		return
+	}
+	cs, ok := f.Blocks[2].Term.(*ir.TermCatchSwitch)
+	cp, ok2 := f.Blocks[3].Insts[0].(*ir.InstCatchPad)
+	cl, ok3 := f.Blocks[5].Insts[0].(*ir.InstCleanupPad)
+	vfAssert("C08.parse.eh.kinds", vfAnd(ok, vfAnd(ok2, ok3)))
+	if !ok || !ok2 || !ok3 {
+		return
+	}
+	vfAssert("C08.parse.eh.binds", vfAnd(cp.CatchSwitch == value.Value(cs), vfAnd(f.Blocks[3].Term.(*ir.TermCatchRet).CatchPad == value.Value(cp), f.Blocks[5].Term.(*ir.TermCleanupRet).CleanupPad == value.Value(cl))))
+	out := m.String() // must not panic
+	vfObserveStr("out", out)
+	vfAssert("C08.parse.eh.numbers", vfAnd(vfAnd(vfAnd(f.Blocks[0].ID() == 0, f.Blocks[1].ID() == 1), vfAnd(f.Blocks[2].ID() == 2, cs.ID() == 3)),
+		vfAnd(vfAnd(f.Blocks[3].ID() == 4, cp.ID() == 5), vfAnd(f.Blocks[4].ID() == 6, vfAnd(f.Blocks[5].ID() == 7, cl.ID() == 8)))))
+	_, err2 := ParseString("t2.ll", out)
+	vfAssert("C08.parse.eh.output-accepted", err2 == nil)
+}
